@@ -22,7 +22,7 @@ KNOWN_TEXT = {
 
 def py_of(case):
     return ("import gfapy\ng=gfapy.Gfa(version=%r,vlevel=%d)\nfor op in %r:\n  try:\n    if op[0]=='add': g.add_line(op[1])\n"
-            "    elif op[0]=='rm': g.rm(op[1])\n    elif op[0]=='rmline': g.rm([x for x in g.lines if str(x)==op[1]][0])\n    else: g.try_get_line(op[1]).name=op[2]\n"
+            "    elif op[0]=='rm': g.rm(op[1])\n    elif op[0]=='rmline': g.rm([x for x in g.lines if str(x)==op[1]][0])\n    elif op[0]=='rmlast': g.rm([x for x in g.lines if str(x)==op[1]][-1])\n    else: g.try_get_line(op[1]).name=op[2]\n"
             "  except gfapy.Error as e: print(op, type(e).__name__)\nprint(g)" % (case['version'], case['vlevel'], case['ops']))
 
 
@@ -89,6 +89,12 @@ CORPUS = [
         ('rmline', 'nothing like this'), ('rm', 'B')]),
     ('gfa1', _adds(['S\tA\t*', 'S\tB\t*', 'L\tA\t+\tB\t-\t*', 'C\tA\t+\tB\t+\t0\t*', 'P\tp\tA+,B-\t*'])
      + [('rmline', 'C\tA\t+\tB\t+\t0\t*'), ('rmline', 'L\tA\t+\tB\t-\t*'), ('rmline', 'L\tA\t+\tB\t-\t*')]),
+    # two records written alike: the later one is removed by instance, then the segment; nothing that mentions it stays
+    ('gfa1', _adds(['S\tA\t*', 'S\tB\t*', 'C\tA\t+\tB\t+\t0\t*', 'C\tA\t+\tB\t+\t0\t*', 'L\tA\t+\tB\t+\t*'])
+     + [('rmlast', 'C\tA\t+\tB\t+\t0\t*'), ('rm', 'B')]),
+    ('gfa2', _adds(['S\tA\t10\t*', 'S\tB\t10\t*', 'F\tA\tr1+\t0\t3\t0\t3\t*', 'F\tA\tr1+\t0\t3\t0\t3\t*',
+                    'E\t*\tA+\tB+\t7\t10$\t0\t3\t*', 'E\t*\tA+\tB+\t7\t10$\t0\t3\t*', 'G\t*\tA+\tB-\t5\t*', 'G\t*\tA+\tB-\t5\t*'])
+     + [('rmlast', 'F\tA\tr1+\t0\t3\t0\t3\t*'), ('rmlast', 'E\t*\tA+\tB+\t7\t10$\t0\t3\t*'), ('rmlast', 'G\t*\tA+\tB-\t5\t*'), ('rm', 'A')]),
     # lines that arrive before the segments they mention, then a rename of such a segment
     ('gfa1', _adds(['C\tA\t+\tB\t+\t0\t*', 'L\tA\t+\tB\t-\t*', 'P\tp\tA+,B-\t*', 'S\tA\t*', 'S\tB\t*']) + [('rename', 'A', 'n1'), ('rename', 'B', 'n2')]),
     ('gfa1', _adds(['C\tA\t-\tB\t+\t2\t3M', 'S\tB\t*', 'S\tA\t*']) + [('rename', 'B', 'n1'), ('rm', 'A')]),
